@@ -102,10 +102,10 @@ def sweeps(prop, quick):
     inv = "INVARIANTS Inv_C13_OrderIndependent"
     ex = "\nACTION_CONSTRAINT EmitEdge"
     if quick:
-        return [("order", dict(BASE, nb="1, 2", mins="low", cross="FALSE, TRUE", bal="5, 9", fix="5", swap='"default"',
+        return [("order", dict(BASE, nb="1, 2", mins="low", cross="FALSE, TRUE", bal="5, 9", fix="5", swap='"multi"',
                                maxtotal=4, maxnew=2, maxunstake=1, maxaddl=1, maxleave=1, bigleave="FALSE",
                                ranks='"mix"', rest=inv + ex, exportmod=23), True)]
-    return [("order", dict(BASE, nb="1, 2", mins="two", cross="FALSE, TRUE", bal="5, 9", fix="5, 6", swap='"default"',
+    return [("order", dict(BASE, nb="1, 2", mins="two", cross="FALSE, TRUE", bal="5, 9", fix="5, 6", swap='"default", "multi"',
                            maxtotal=5, maxnew=1, maxunstake=1, maxaddl=1, maxleave=1, ranks='"mix"',
                            rest=inv + ex, exportmod=199), True)]
 
@@ -202,7 +202,9 @@ def run(ctx):
                             divergence_is_violation=False, timeout=3600, what="randHashShuffler.UpdateNodeLists")
     if not q and st == "accepted":
         selftest(ctx, sd, tr, prop)
-    ctx.cov(rule="a case = one UpdateNodeLists call executed on the real shuffler (8 repetitions with rebuilt maps); "
+    ctx.cov(rule="a case = one UpdateNodeLists call executed on the real shuffler (10 runs: 8 with rebuilt maps / slices / objects, 2 on "
+                 "shufflers that served later / earlier epochs before; public keys of six shape classes: 32-byte, 96-byte, mixed "
+                 "lengths, nested prefixes, prefix+decimal, last-byte-only); "
                  "TLC-enumerated calls (all size vectors / leaving lists / flags of the bounded space, sampled 1-in-k, keys "
                  "chosen so that sha256 realises the enumerated rank) + seeded random chains of epochs (0-4 shards, up to "
                  "~45 validators, leaving lists with duplicates and unknown keys, enable epochs before/at/after the call); "
